@@ -58,10 +58,10 @@ AllTopos == {
   [id |-> "line3",   lev |-> 0, axes |-> <<Ax(0, 3)>>,           off |-> {}],
   [id |-> "line4r",  lev |-> 1, axes |-> <<Ax(0, 4)>>,           off |-> {}],     \* 2 root elements, refined
   [id |-> "line2s",  lev |-> 0, axes |-> <<Ax(1, 2)>>,           off |-> {}],     \* elements 1..2 of a longer line
-  [id |-> "line3m",  lev |-> 0, axes |-> <<Ax(0, 3)>>,           off |-> {1}],    \* middle element removed
+  [id |-> "line4m",  lev |-> 0, axes |-> <<Ax(0, 4)>>,           off |-> {2}],    \* third element removed
   [id |-> "rect32",  lev |-> 0, axes |-> <<Ax(0, 3), Ax(0, 2)>>, off |-> {}],
   [id |-> "rect32r", lev |-> 1, axes |-> <<Ax(1, 3), Ax(0, 2)>>, off |-> {}],     \* refined, then sliced
-  [id |-> "rect22m", lev |-> 0, axes |-> <<Ax(0, 2), Ax(0, 2)>>, off |-> {1}] }   \* element (0,1) removed
+  [id |-> "rect33m", lev |-> 0, axes |-> <<Ax(0, 3), Ax(0, 3)>>, off |-> {4}] }   \* centre element removed
 Topos == {t \in AllTopos : t.id \in TopoIds}
 Nd(t) == Len(t.axes)
 Flat(t, ie) == IF Nd(t) = 1 THEN ie[1] ELSE ie[1] * t.axes[2].n + ie[2]
@@ -107,7 +107,7 @@ RootSets == <<  << <<90, 128>>, <<0, 0>>, <<1, 0>>, <<0, 32>> >>,     \* upper e
                 << <<0, 64>>, <<91, 64>>, <<1, 64>> >>,               \* the second one is outside
                 << <<1, 96>>, <<0, 128>>, <<90, 0>>, <<0, 96>> >>,    \* element boundaries from the other side
                 << <<-1, 64>>, <<1, 0>>, <<90, 128>> >>  >>           \* the first one is outside
-OtherAxis(i) == (i % Len(RootSets)) + 1
+OtherAxis(i) == <<2, 4, 1, 1, 2>>[i]
 ElemOf(t, d, c) == IF c >= 90 THEN t.axes[d].n - 1 + (c - 90) ELSE c
 RootPoints(t, i) == LET sx == RootSets[i]
                         sy == RootSets[OtherAxis(i)]
@@ -153,10 +153,7 @@ LocateCall(g, hasargs, m, tsi, own) ==
         res == IF fit.err THEN Generic(topo, m, ts) ELSE Structured(topo, fit, ts)
         store == ~fit.err /\ (~hasargs \/ MemoAlways)
         rec == [g |-> g, hasargs |-> hasargs, m |-> m, ts |-> ts, tsi |-> tsi, own |-> own, raised |-> res.raised, pts |-> res.pts,
-                path |-> (IF usememo THEN "memo" ELSE "fit") \o (IF fit.err THEN "+generic" ELSE "+structured"),
-                mustraise |-> \E k \in 1..Len(ts) : Cont(topo, m, ts[k]) = {},
-                cont |-> [k \in 1..Len(ts) |-> LET C == Cont(topo, m, ts[k]) IN
-                             [i \in 1..Cardinality(C) |-> CHOOSE c \in C : Cardinality({b \in C : b.e < c.e}) = i - 1]]]
+                path |-> (IF usememo THEN "memo" ELSE "fit") \o (IF fit.err THEN "+generic" ELSE "+structured")]
     IN /\ Len(hist) < MaxCalls
        /\ memo' = IF store THEN [set |-> TRUE, geom |-> g, dep |-> g = "P", fit |-> fit] ELSE memo
        /\ hist' = Append(hist, rec)
@@ -183,7 +180,14 @@ InsideLocated == (last.n > 0 /\ topo.off = {} /\ \A k \in 1..Len(last.ts) : Cont
 MemoSound == memo.set => ~memo.dep
 
 Emit(x) == PrintT(<<"VF", ToJson(x)>>)
-Behaviour == [topo |-> [id |-> topo.id, lev |-> topo.lev, axes |-> topo.axes, off |-> [e \in 1..NElems(topo) |-> (e - 1) \in topo.off]], hist |-> hist]
+\* what the replay needs per call: the call, the model's result, whether it must raise, and for every target the
+\* elements that contain it (ascending) with the local coordinates of the target
+Predict(c) == [g |-> c.g, hasargs |-> c.hasargs, m |-> c.m, ts |-> c.ts, tsi |-> c.tsi, own |-> c.own, raised |-> c.raised, pts |-> c.pts, path |-> c.path,
+               mustraise |-> \E k \in 1..Len(c.ts) : Cont(topo, c.m, c.ts[k]) = {},
+               cont |-> [k \in 1..Len(c.ts) |-> LET C == Cont(topo, c.m, c.ts[k]) IN
+                            [i \in 1..Cardinality(C) |-> CHOOSE b \in C : Cardinality({a \in C : a.e < b.e}) = i - 1]]]
+Behaviour == [topo |-> [id |-> topo.id, lev |-> topo.lev, axes |-> topo.axes, off |-> [e \in 1..NElems(topo) |-> (e - 1) \in topo.off]],
+              hist |-> [n \in 1..Len(hist) |-> Predict(hist[n])]]
 EmitFull == Len(hist) = MaxCalls => Emit(Behaviour)
 \* simulation: the stuttering step Done prints the behaviour of the walk that was actually taken (an invariant would
 \* also print every successor that the random walk did not choose)
